@@ -21,6 +21,8 @@ EVIDENCE = os.path.join(VERIF, "evidence")
 PY = "/venv/bin/python"
 
 os.environ.setdefault("GFO_VERIF_HARNESS", "1")
+for _v in ("OMP_NUM_THREADS", "OPENBLAS_NUM_THREADS", "MKL_NUM_THREADS", "NUMEXPR_NUM_THREADS"):
+    os.environ.setdefault(_v, "1")      # one BLAS thread per harness process: the checks parallelise over processes
 if SRC not in sys.path:
     sys.path.insert(0, SRC)
 
